@@ -809,6 +809,17 @@ func (c *SpecCtx) callExpr(e *ECall) SVal {
 			l = sArr(l)
 		}
 		return SVal{T: app(SBool, ">", app("Int", "root", l), c.old.ctr), Ty: tyBoolT}
+	case "avail":
+		// avail(r): ghost number of unread bytes available on the stream behind reader r
+		if !need(1) {
+			return SVal{}
+		}
+		x := argv(0)
+		l := x.T
+		if l.Sort == SIface {
+			l = app(SLoc, "iface_loc", l)
+		}
+		return SVal{T: sel(g.heap(c.st, "Avail"), l), Ty: types.Typ[types.Uint64]}
 	case "held":
 		if !need(1) {
 			return SVal{}
